@@ -9,6 +9,7 @@ import (
 	"os/exec"
 	"path/filepath"
 	"runtime"
+	"runtime/pprof"
 	"sort"
 	"strconv"
 	"strings"
@@ -39,6 +40,8 @@ func main() {
 		os.Exit(cmdWorker(os.Args[2:]))
 	case "replay":
 		os.Exit(cmdReplay(os.Args[2:]))
+	case "c12try":
+		os.Exit(cmdC12Try(os.Args[2:]))
 	case "selftest":
 		os.Exit(cmdSelftest(os.Args[2:]))
 	case "gen":
@@ -110,6 +113,12 @@ func cmdWorker(args []string) int {
 	maxRuns := fs.Int("runs", 1<<30, "")
 	fs.Parse(args)
 	runtime.GOMAXPROCS(2)
+	if pf := os.Getenv("VERIF_PPROF"); pf != "" {
+		if f, err := os.Create(pf); err == nil {
+			pprof.StartCPUProfile(f)
+			defer pprof.StopCPUProfile()
+		}
+	}
 	e := engineByName(*prop, *eng)
 	if e == nil {
 		fmt.Fprintln(os.Stderr, "no such engine")
@@ -227,6 +236,7 @@ func cmdCheck(args []string) int {
 	runs := fs.Int("runs", 0, "max runs per engine (0 = tier default)")
 	workers := fs.Int("workers", 0, "")
 	noEvidence := fs.Bool("no-evidence", false, "")
+	onlyEngine := fs.String("engine", "", "run only this engine (diagnostics; implies nothing about the property as a whole)")
 	fs.Parse(args[1:])
 	if *tier == "" {
 		*tier = os.Getenv("VERIF_TIER")
@@ -235,6 +245,15 @@ func cmdCheck(args []string) int {
 		*tier = "quick"
 	}
 	engines := enginesFor(prop)
+	if *onlyEngine != "" {
+		var es []Engine
+		for _, e := range engines {
+			if e.Name() == *onlyEngine {
+				es = append(es, e)
+			}
+		}
+		engines = es
+	}
 	if len(engines) == 0 {
 		fmt.Fprintln(os.Stderr, "no engine for property", prop)
 		return 2
@@ -260,6 +279,23 @@ func cmdCheck(args []string) int {
 		if *runs > 0 {
 			tc.maxRuns = *runs
 		}
+		workerExe := exe
+		var extraEnv []string
+		if we, ok := e.(interface{ WorkerExe() string }); ok && we.WorkerExe() != "" {
+			workerExe = filepath.Join(filepath.Dir(exe), we.WorkerExe())
+			if _, err := os.Stat(workerExe); err != nil {
+				fmt.Printf("NOTE: engine %s skipped: %s is not built (the race detector needs cgo and a C compiler)\n", e.Name(), workerExe)
+				continue
+			}
+			dir, err := os.MkdirTemp("", "utxosim-race-")
+			if err != nil {
+				fmt.Println("TROUBLE:", err)
+				exit = max2(exit, 2)
+				continue
+			}
+			defer os.RemoveAll(dir)
+			extraEnv = append(extraEnv, "GORACE=log_path="+filepath.Join(dir, "race")+" halt_on_error=0 exitcode=0")
+		}
 		outs := make([]*WorkerOut, *workers)
 		errs := make([]string, *workers)
 		var wg sync.WaitGroup
@@ -267,9 +303,9 @@ func cmdCheck(args []string) int {
 			wg.Add(1)
 			go func(wi int) {
 				defer wg.Done()
-				cmd := exec.Command(exe, "worker", "-prop", prop, "-engine", e.Name(), "-seed", fmt.Sprint(mix64(seed^uint64(ei+1)*0x517cc1b727220a95)),
+				cmd := exec.Command(workerExe, "worker", "-prop", prop, "-engine", e.Name(), "-seed", fmt.Sprint(mix64(seed^uint64(ei+1)*0x517cc1b727220a95)),
 					"-idx", fmt.Sprint(wi), "-n", fmt.Sprint(*workers), "-budget", fmt.Sprint(tc.budget), "-runs", fmt.Sprint(tc.maxRuns))
-				cmd.Env = append(os.Environ(), "VERIF_DIR="+verifDir())
+				cmd.Env = append(append(os.Environ(), "VERIF_DIR="+verifDir()), extraEnv...)
 				var so, se bytes.Buffer
 				cmd.Stdout, cmd.Stderr = &so, &se
 				done := make(chan error, 1)
@@ -476,6 +512,28 @@ func cmdReplay(args []string) int {
 	if e == nil {
 		fmt.Fprintln(os.Stderr, "unknown engine", rf.Engine)
 		return 2
+	}
+	if we, ok := e.(interface{ WorkerExe() string }); ok && we.WorkerExe() != "" && !raceEnabled {
+		// this case needs the race build: hand the replay to it
+		exe, _ := os.Executable()
+		rexe := filepath.Join(filepath.Dir(exe), we.WorkerExe())
+		dir, err := os.MkdirTemp("", "utxosim-race-")
+		if err != nil {
+			fmt.Fprintln(os.Stderr, err)
+			return 2
+		}
+		defer os.RemoveAll(dir)
+		cmd := exec.Command(rexe, append([]string{"replay"}, args...)...)
+		cmd.Env = append(os.Environ(), "VERIF_DIR="+verifDir(), "GORACE=log_path="+filepath.Join(dir, "race")+" halt_on_error=0 exitcode=0")
+		cmd.Stdout, cmd.Stderr = os.Stdout, os.Stderr
+		if err := cmd.Run(); err != nil {
+			if ee, ok := err.(*exec.ExitError); ok {
+				return ee.ExitCode()
+			}
+			fmt.Fprintln(os.Stderr, "cannot run the race build:", err)
+			return 2
+		}
+		return 0
 	}
 	f := loadFindings()
 	cr, log, err := e.Replay(rf.Case, f, trace)
